@@ -389,6 +389,34 @@ def r2_lower_discipline(ctx, rep):
                    py.nloc(c))
     if n < 25:
         raise AnalysisError(f"only {n} keyword comparisons found")
+    # letters: a character of a name tested against lower-case letters (`name[0] in "ijklmn"`, `"i" <= name[0] <= "n"` - the
+    # implicit typing rule) has to be lower-cased first; upper-case names are the rule in older code
+    k = 0
+    for mod, fn in py.all_ifunctions():
+        if mod != "sourceform":
+            continue
+        for c in ast.walk(fn):
+            if not isinstance(c, ast.Compare) or py.enclosing_function(c) is not fn:
+                continue
+            operands = [c.left] + list(c.comparators)
+            letters = [o for o in operands if isinstance(o, ast.Constant) and isinstance(o.value, str) and o.value.isalpha()
+                       and o.value.islower() and (len(o.value) == 1 or all(isinstance(op, (ast.In, ast.NotIn)) for op in c.ops))
+                       and o.value not in KEYWORDS]
+            chars = [o for o in operands if isinstance(o, ast.Subscript) and not isinstance(o.slice, ast.Slice)
+                     or (isinstance(o, ast.Call) and isinstance(o.func, ast.Attribute) and o.func.attr == "lower"
+                         and isinstance(o.func.value, ast.Subscript))]
+            if not letters or not chars:
+                continue
+            if len(letters[0].value) > 1 and not all(len(set(x.value)) == len(x.value) for x in letters):
+                continue
+            k += 1
+            ok = all(_lowered(py, fn, o) for o in chars)
+            rep.ob(f"{py.qualname(fn)}: `{ast.unparse(c)[:60]}`", ok,
+                   "the character is lower-cased before it is compared with lower-case letters" if ok else
+                   f"`{ast.unparse(chars[0])}` is a character of a name as written in the source and is compared with lower-case letters: "
+                   f"an upper-case spelling (`KOUNT`, `IFACT`) falls on the other side - implicitly typed names get the wrong type",
+                   py.nloc(c))
+    rep.stats["letter_comparisons"] = k
     # name-keyed tables filled with lower-cased names: every lookup key is lower-cased too
     m = 0
     for mod, fn in py.all_ifunctions():
@@ -936,6 +964,64 @@ def r14_continuation_joins(ctx, rep):
     c02.r5_continuation(ctx, rep)
 
 
+def r15_star_selector_with_blanks(ctx, rep):
+    """`integer*4`, `integer *4` and `integer * 4` are one declaration (blanks between tokens are not significant).  The pattern
+    that reads the old-style selector says so itself (`\\*\\s*(...)`), but the selector is first *cut out* of the statement by a
+    character scanner, and that scanner ends the selector at the first blank outside parentheses: of `* 4` it keeps `*`.  If both
+    hold, the blanks behind the star have to be removed before the cut - otherwise `integer * 4 :: n` is a "bad declaration" that
+    rejects the whole file, and `character * (*)` loses its length."""
+    py, rx = ctx.py, ctx.rx
+    pt = py.ifunc("sourceform.parse_type")
+    cut = [c for c in ast.walk(pt) if isinstance(c, ast.Call) and call_name(c).split(".")[-1] == "get_parens"]
+    key = next((k for k in ctx.regexes if k.split(".")[-1] == "VARKIND_RE"), None)
+    if not cut or key is None:
+        rep.ob("the selector is not cut out by get_parens any more", True, "", py.nloc(pt), nontrivial=False)
+        return
+    gp = py.func("utils.get_parens")
+    # characters at which the scanner returns: the operands of `char in (...)` / `char == ...` in a test that guards a return
+    stops = set()
+    for i in ast.walk(gp):
+        if isinstance(i, ast.If) and any(isinstance(x, ast.Return) for x in i.body):
+            for cmp_ in ast.walk(i.test):
+                if isinstance(cmp_, ast.Compare) and len(cmp_.ops) == 1 and isinstance(cmp_.ops[0], (ast.In, ast.Eq)):
+                    for k in ast.walk(cmp_.comparators[0]):
+                        if isinstance(k, ast.Constant) and isinstance(k.value, str):
+                            stops.update(k.value if isinstance(cmp_.ops[0], ast.In) and isinstance(cmp_.comparators[0], ast.Constant) else [k.value])
+                if isinstance(cmp_, ast.Call) and isinstance(cmp_.func, ast.Attribute) and cmp_.func.attr == "isspace":
+                    stops.add(" ")
+    pat, flags, node, _ = ctx.regexes[key]
+    try:
+        reads_blank = rx.subset_witness(rx.full(r"\* +[0-9]", 0), rx.search_lang(pat, flags)) is None
+    except (rx.Unsupported, rx.Budget) as e:
+        raise AnalysisError(f"{key}: {e}")
+    if " " not in stops or not reads_blank:
+        rep.ob("blanks behind the star of a selector", True,
+               "the cutter does not stop at blanks" if " " not in stops else "the selector pattern does not allow them either",
+               py.nloc(gp), nontrivial=False)
+        return
+    for c in cut:
+        made = astq.expand_locals(c.args[0], pt) if c.args else []
+        removed = False
+        for m in made:
+            for x in ast.walk(m):
+                if isinstance(x, ast.Call) and isinstance(x.func, ast.Attribute) and x.func.attr == "sub":
+                    pe = x.args[0] if isinstance(x.func.value, ast.Name) and x.func.value.id == "re" and x.args else x.func.value
+                    ptxt = pe.value if isinstance(pe, ast.Constant) and isinstance(pe.value, str) else None
+                    if ptxt is None and isinstance(pe, ast.Name):
+                        k2 = next((k for k in ctx.regexes if k.split(".")[-1] == pe.id), None)
+                        ptxt = ctx.regexes[k2][0] if k2 else None
+                    if ptxt is not None:
+                        try:
+                            if rx.subset_witness(rx.full(r"\* ", 0), rx.search_lang(ptxt, 0)) is None:
+                                removed = True
+                        except (rx.Unsupported, rx.Budget):
+                            pass
+        rep.ob("`* 4`: blanks behind the star are removed before the selector is cut out", removed,
+               "the text handed to get_parens went through a substitution that takes them out" if removed else
+               f"{key} reads `* 4`, but `{ast.unparse(c)[:50]}` stops at the blank and hands it `*`: `integer * 4 :: n` raises "
+               f"\"Bad declaration\" (the file is rejected), `character * (*)` is recorded with length 1", py.nloc(c))
+
+
 RULES = [
     RuleSpec("C01.R5", r5_character_slots, "character selector slots are filled at most once", floor=2),
     RuleSpec("C01.R1", r1_case_neutral, "case-neutral recognition", floor=24),
@@ -949,5 +1035,6 @@ RULES = [
     RuleSpec("C01.R11", r11_two_word_types, "two-word type keywords are normalised in every spelling", floor=2),
     RuleSpec("C01.R12", r12_template_name_comparisons, "templates compare names case-insensitively", floor=1),
     RuleSpec("C01.R13", r13_initial_value_verbatim, "initial values are not rewritten after their literals were put back (shared with C18.R2)", floor=2),
+    RuleSpec("C01.R15", r15_star_selector_with_blanks, "a `*` selector written with blanks is the same selector", floor=1),
     RuleSpec("C01.R14", r14_continuation_joins, "continuation joining removes exactly the & characters (shared with C02.R5)", floor=3),
 ]
